@@ -609,6 +609,12 @@ pub fn cases_c01(rng: &mut Rng, thorough: bool) -> Vec<GenCase> {
     for r in [-1, 30, -2, i32::MAX] {
         v.push(lookup_case(12.5, 45.25, r, "lookup_out_of_range"));
     }
+    // longitudes far outside the principal range: the code reduces them modulo 360 first (fixed defect D14)
+    for (k, m) in [1e3f64, -1e3, 1e6, -1e9, 1e12, -1e12].iter().enumerate() {
+        let (lon, lat) = crate::golden::uniform_point(rng);
+        let res = [3, 9, 17, 23, 29, 12][k];
+        v.push(lookup_case(lon + 360.0 * m, lat.clamp(-80.0, 80.0), res, "lookup_far_longitude"));
+    }
     v
 }
 
